@@ -49,6 +49,35 @@ func c12Entries() []c12Entry {
 	}
 	out("text")
 	// the same entry points with a writer that fails from its k-th write on: still no panic, no hang
+	// a stream that delivers a few roots and then says nothing more (no EOF), into a writer that
+	// fails at once: the call has its error after the first root and must come back with it
+	// (only for the documents made for this entry, see "stalling-reader" below)
+	for _, mode := range []string{"text", "json", "dryrun"} {
+		mode := mode
+		es = append(es, c12Entry{name: "OutputFromMarkdown[" + mode + ",writer-fails-at-0,reader-stalls-after-the-document]", massive: false, run: func(doc string, ctx context.Context, _ string) ([]byte, int, Outcome) {
+			if !strings.HasPrefix(doc, c12StallPrefix) {
+				return nil, 0, Outcome{}
+			}
+			var opts []gtree.Option
+			switch mode {
+			case "json":
+				opts = append(opts, gtree.WithEncodeJSON())
+			case "dryrun":
+				opts = append(opts, gtree.WithDryRun())
+			}
+			w := mon.NewRecWriter()
+			w.FailAt = 0
+			block := make(chan struct{})
+			rd := &mon.FaultReader{Doc: []byte(doc), K: -1, Block: block, BlockFrom: len(doc)}
+			o := Guard(func() error { return gtree.OutputFromMarkdown(w, rd, opts...) })
+			close(block)
+			if o.Err == nil && o.Panic == nil {
+				o.Panic = "nil although the writer failed at its first write"
+			}
+			o.Err = nil
+			return nil, 0, o
+		}})
+	}
 	for _, k := range []int{0, 1, 3} {
 		k := k
 		for _, mode := range []string{"text", "json", "dryrun", "yaml"} {
@@ -93,7 +122,9 @@ func c12Entries() []c12Entry {
 			return nil, len(rows), o
 		}})
 		es = append(es, c12Entry{name: "MkdirFromMarkdown[dryrun]", massive: massive, fs: true, run: func(doc string, ctx context.Context, target string) ([]byte, int, Outcome) {
-			opts := []gtree.Option{gtree.WithDryRun(), gtree.WithTargetDir(target)}
+			// "every option combination": option VALUES of length zero included (an empty extension
+			// and an extension list without entries are legal)
+			opts := []gtree.Option{gtree.WithDryRun(), gtree.WithTargetDir(target), gtree.WithFileExtensions([][]string{{".go", ""}, {}, {""}}[len(doc)%3])}
 			if massive {
 				opts = append(opts, gtree.WithMassive(ctx))
 			}
@@ -187,6 +218,9 @@ func runC12(c *Ctx) bool {
 	big = append(big, deep.String())
 	for _, d := range big {
 		emit("size-extreme", d)
+	}
+	for _, d := range []string{c12StallPrefix + "  - kid\n- stall-root-2\n- stall-root-3\n  - kid\n", c12StallPrefix + "- stall-root-2\n"} {
+		emit("stalling-reader", d)
 	}
 	nMut := c.Pick(5000, 200000)
 	for j := 0; j < nMut; j++ {
@@ -436,6 +470,8 @@ func evalC12Root(c *Ctx, cs *Case, lm *mon.LeakMonitor) {
 
 // c12Procs sets GOMAXPROCS for one massive call (1, 2 or unchanged, chosen by k) and returns
 // the function that restores it.
+const c12StallPrefix = "- stall-root-1\n"
+
 func c12Procs(c *Ctx, cs *Case, massive bool, k int) func() {
 	if !massive {
 		return func() {}
